@@ -97,6 +97,9 @@ struct ClientState {
     last_growth: Option<(PRecord, i128, i128)>,
     last_rec_at: Option<i64>,
     last_rec: Option<PRecord>,
+    /// every record that explained the client's last answer (with a zero drift rate or equal
+    /// bounds several do): any of them may be what the client holds in its cache
+    last_recs: Vec<PRecord>,
     /// the client's cache may hold a mixture of two lives of the file (a call of its spanned a
     /// re-creation after third-party damage)
     tainted: bool,
@@ -118,6 +121,8 @@ pub struct BState {
     file_epoch: u32,
     /// a third party damaged the file header at some point of this run
     pub damaged_ever: bool,
+    /// number of publications made into files that were removed since
+    removed_upto: usize,
     /// (distance as_of - mono, was causality error) per judged call with mono < as_of
     blur_obs: Vec<(i128, bool)>,
     hist: Vec<Value>,
@@ -157,6 +162,7 @@ impl BState {
             live_gen: 0,
             file_epoch: 0,
             damaged_ever: false,
+            removed_upto: 0,
             blur_obs: Vec::new(),
             hist: Vec::new(),
             ended: false,
@@ -182,6 +188,7 @@ impl BState {
     /// may be left with the old file.
     pub fn file_removed(&mut self) {
         self.damaged_ever = true;
+        self.removed_upto = self.pubs.len();
         for c in self.clients.iter_mut() {
             c.orphaned = true;
         }
@@ -536,6 +543,7 @@ impl BState {
             // record: what it read is a mixture of two lives of the file, not covered by any property
             self.out.probe("probe.call_spanning_a_recreation_not_judged");
             self.clients[ci].last_rec = None;
+            self.clients[ci].last_recs.clear();
             self.clients[ci].tainted = true;
             return;
         }
@@ -621,6 +629,16 @@ impl BState {
             None => {
                 let mut v: Vec<PRecord> = self.pubs.iter().rev().take(40).map(|p| p.rec).collect();
                 // a client may legitimately answer from its previous snapshot (update in flight)
+                for r in self.clients[ci].last_recs.clone() {
+                    v.push(r);
+                }
+                if self.clients[ci].orphaned {
+                    // a client left with a removed file reads what the file's last daemon wrote
+                    let hi = self.removed_upto.min(self.pubs.len());
+                    for p in self.pubs[hi.saturating_sub(40)..hi].iter().rev() {
+                        v.push(p.rec);
+                    }
+                }
                 if let Some(r) = self.clients[ci].last_rec {
                     v.push(r);
                 }
@@ -633,6 +651,9 @@ impl BState {
             }
         };
         let mut explained: Option<(PRecord, Vec<(Vec<&'static str>, &'static str, String, String)>)> = None;
+        // (judge_law notes blur observations as a side effect: only those of the record finally
+        // attributed to the answer are kept)
+        let blur_mark = self.blur_obs.len();
         for rec in &candidates {
             let v = self.judge_law(rec, real_v, mono_v, &res);
             if v.is_empty() {
@@ -644,6 +665,9 @@ impl BState {
             }
         }
         let (rec, law_viol) = explained.unwrap();
+        self.blur_obs.truncate(blur_mark);
+        let _ = self.judge_law(&rec, real_v, mono_v, &res);
+        let blur_mark = self.blur_obs.len();
         if std::env::var_os("VERIF_DEBUG_RANK").is_some() {
             let rank = self.pubs.iter().rev().position(|p| p.rec == rec);
             eprintln!("client {ci} kind {kind} mono={mono_v} matched rank {rank:?} rec {rec:?} of {} pubs", self.pubs.len());
@@ -660,6 +684,15 @@ impl BState {
         }
         if law_ok {
             self.clients[ci].last_rec = Some(rec);
+            // the other candidates that explain the answer just as well
+            let mut all: Vec<PRecord> = Vec::new();
+            for c in &candidates {
+                if *c != rec && !all.contains(c) && all.len() < 12 && self.judge_law(c, real_v, mono_v, &res).is_empty() {
+                    all.push(*c);
+                }
+            }
+            self.clients[ci].last_recs = all;
+            self.blur_obs.truncate(blur_mark);
         }
         let single = known.is_some() || self.synthetic_rec.is_some();
         if !law_viol.is_empty() {
